@@ -100,6 +100,22 @@ def guarded(what, fn):
     signal.alarm(0)
 
 
+class _Ambiguous(Exception):
+  """ Too many half-sample alternatives stay indistinguishable. """
+
+
+def dedupe(states, cap=256):
+  seen, out = set(), []
+  for st in states:
+    k = st.key()
+    if k not in seen:
+      seen.add(k)
+      out.append(st)
+  if len(out) > cap:
+    raise _Ambiguous()
+  return out
+
+
 class _Mismatch(Exception):
   def __init__(self, what, detail):
     Exception.__init__(self, detail)
@@ -145,7 +161,7 @@ class C16(Property):
     self.threads_part.setup()
 
   def budget(self, tier):
-    return (150000, 60.0) if tier == "quick" else (20000000, 780.0)
+    return (110000, 60.0) if tier == "quick" else (20000000, 780.0)
 
   def extra_schedules(self):
     return 8
@@ -198,7 +214,12 @@ class C16(Property):
       demands = [W.pick("ldk", [50, 200, 500]) for _ in range(4)]
     return {"part": "mix", "keep": bool(W.choose("keep", 2)),
             "zero": W.pick("zero", ZEROS), "events": events,
-            "demands": demands, "tail": W.pick("tail", [3, 0, 8])}
+            "demands": demands, "tail": W.pick("tail", [3, 0, 8]),
+            # the public attribute may be switched while the mixer plays
+            "keep_toggles": W.weighted("ktog", [(6, 0), (1, 1), (1, 2)]),
+            # event values: tagged / with silent items / cancelling pairs
+            "values": W.weighted("vals", [(5, "tag"), (2, "sparse"),
+                                          (2, "cancel")])}
 
   def shrink_candidates(self, wl):
     if wl["part"] in ("mix-thread", "ctrl-thread"):
@@ -283,6 +304,11 @@ class C16(Property):
       res.violation = Violation("model-mismatch", part + ":" + mm.what,
                                 mm.detail)
       info = {"late": 0, "choices": []}
+    except _Ambiguous:
+      # silent / cancelling values plus many half-sample ties: the outputs no
+      # longer tell the alternatives apart; such a run is not judged further
+      res.counters["skipped-too-many-tie-alternatives"] += 1
+      info = {"late": 0, "choices": []}
     res.counters["runs." + part] += 1
     res.digest = digest_events(events)
     fired = any(k.startswith("probe.") and v for k, v in res.counters.items())
@@ -297,7 +323,14 @@ class C16(Property):
     return res
 
   # ------------------------------------------------------------------- mixer
-  def _event_values(self, kind, i, ln):
+  def _event_values(self, kind, i, ln, flavour="tag"):
+    if flavour == "sparse":       # silent items: the sum may be the zero
+      return [conv(kind, 0 if j % 2 else (i + 1) * 1000 + j + 1)
+              for j in range(ln)]
+    if flavour == "cancel":       # event i+1 cancels event i item by item
+      sign = -1 if i % 2 else 1
+      return [conv(kind, sign * (((i // 2) + 1) * 1000 + j + 1))
+              for j in range(ln)]
     return [conv(kind, (i + 1) * 1000 + j + 1) for j in range(ln)]
 
   def _box(self, box, values, sid):
@@ -322,6 +355,7 @@ class C16(Property):
                       % (wl["keep"], zero, exc))
     add_fn = lambda acc, item: acc + item
     states = [MixState(wl["keep"], make_zero(kind))]
+    wl_keep = [wl["keep"]]  # current value of the public keep attribute
     inflight = []           # adds made by playing events during this sample
     has_chain = any(ev.get("chain") for ev in wl["events"])
     chain_ids = [1000]
@@ -389,7 +423,7 @@ class C16(Property):
                             % (produced, got[j], outs, alts[0][1].starts))
           if len(alts) > 1:
             res.counters["probe.half-sample-tie"] += 1
-          states = keep[:8]
+          states = dedupe(keep)
           produced += 1
         else:
           keep = [st for out, st in alts if out is END]
@@ -398,7 +432,7 @@ class C16(Property):
             raise _Mismatch("too-short", "mixer ended after %d samples, the "
                             "event model continues with %r"
                             % (produced, outs))
-          states = keep[:8]
+          states = dedupe(keep)
           ended = True
           res.counters["probe.mixer-ended-by-last-event"] += 1
           break
@@ -406,18 +440,32 @@ class C16(Property):
                     % (k, len(got), produced, " END" if ended else ""))
       res.counters["op.take"] += 1
 
+    toggles = wl.get("keep_toggles", 0)
     while (adds or demands) and not ended:
       opts = []
       if adds:
         opts.append("add")
       if demands:
         opts.append("take")
+      if toggles and produced:
+        opts.append("toggle-keep")
       c = opts[S.choose("actor", len(opts))]
+      if c == "toggle-keep":
+        toggles -= 1
+        choices.append(c)
+        mix.keep = not mix.keep
+        for st in states:
+          st.keep = not st.keep
+        wl_keep[0] = not wl_keep[0]
+        res.counters["probe.keep-switched-during-playback"] += 1
+        events.append("keep = %r after %d samples" % (mix.keep, produced))
+        continue
       choices.append(c)
       res.steps += 1
       if c == "add":
         i, ev = adds.pop(0)
-        vals = self._event_values(kind, i, ev["len"])
+        vals = self._event_values(kind, i, ev["len"],
+                                  wl.get("values", "tag"))
         d = ev["delta"]
         want_err = d < 0
         for st in states:
@@ -459,7 +507,7 @@ class C16(Property):
         consume(demands.pop(0))
     # the rest of the sequence
     if not ended:
-      if wl["keep"]:
+      if wl_keep[0]:
         # bounded look at the tail: the latest possible end of every event
         horizon = produced + wl.get("tail", 0)
         for st in states:
